@@ -339,6 +339,45 @@ def run(rep, tier, seed):
     events, tail = suitetrace.run_tests(['tests/test_cassettes/async'])
     rep.extra['suite_run'] = tail
     suitetrace.validate(rep, 'tests/test_cassettes/async (free-running threads)', 'AsyncTrace', suitetrace.async_traces(events))
+    # ... and seeded free-running workloads with real threads and a real flusher (no scheduler), logged by the same hooks
+    free_running(rep, seed, 40 if quick else 1500)
+
+
+def free_running(rep, seed, n):
+    import os
+    import subprocess
+    import sys
+    import tempfile
+    from .. import suitetrace
+    fd, path = tempfile.mkstemp(prefix='pbverif-asyncfree-', suffix='.ndjson')
+    os.close(fd)
+    os.remove(path)
+    env = dict(os.environ)
+    env['PLAYBACK_VERIF_TRACE'] = path
+    env['PYTHONPATH'] = os.pathsep.join([p for p in sys.path if p])
+    p = subprocess.run([sys.executable, '-m', 'pbverif.asyncfree', str(seed), str(n)], env=env, stdout=subprocess.PIPE,
+                       stderr=subprocess.PIPE, universal_newlines=True, timeout=1800,
+                       cwd=os.path.dirname(os.path.dirname(os.path.dirname(os.path.abspath(__file__)))))
+    events = []
+    if os.path.exists(path):
+        with open(path) as f:
+            for line in f:
+                try:
+                    events.append(json.loads(line))
+                except ValueError:
+                    pass
+        os.remove(path)
+    try:
+        out = json.loads(p.stdout.strip().splitlines()[-1])
+    except Exception:
+        raise RuntimeError('free-running workload driver failed: %s %s' % (p.stdout[-300:], p.stderr[-600:]))
+    rep.extra['free_running_workloads'] = out
+    rep.evaluations += n
+    if not out['all_equal']:
+        rep.violation({'summary': 'free-running threads: %d of %d workloads stored something else than synchronous recording'
+                                  % (n - out['equal_to_synchronous_twin'], n), 'signature': None},
+                      replay={'kind': 'free', 'seed': seed, 'n': n})
+    suitetrace.validate(rep, 'seeded free-running workloads (real threads, %d runs)' % n, 'AsyncTrace', suitetrace.async_traces(events))
 
 
 def replay(rep, body):
